@@ -547,3 +547,58 @@ func domFlags(v *Value) []string {
 	}
 	return r
 }
+
+// specFromRecs turns logged component records back into a specification (used to ask the
+// constructors whether they would accept what a parser produced, and to replay recorded cases).
+func specFromRecs(kind string, recs []Rec) *VSpec {
+	one := func(r Rec) *VSpec {
+		switch r.K {
+		case "node":
+			return &VSpec{K: "node", T: r.A, I: r.B}
+		case "pred":
+			if r.B == "imm" {
+				return &VSpec{K: "pred", I: r.A, Imm: true}
+			}
+			sp := &VSpec{K: "pred", I: r.A}
+			if i := strings.Index(r.C, "."); i > 0 {
+				sp.Sec = r.C[:i]
+				sp.Ns, _ = strconv.Atoi(r.C[i+1:])
+			}
+			sp.Off, _ = strconv.Atoi(r.Z)
+			return sp
+		case "lit":
+			return &VSpec{K: "lit", T: r.A, V: r.B}
+		}
+		return nil
+	}
+	switch {
+	case kind == "triple" && len(recs) == 3:
+		s, p, o := one(recs[0]), one(recs[1]), one(recs[2])
+		if s == nil || p == nil || o == nil {
+			return nil
+		}
+		return &VSpec{K: "triple", S: s, P: p, O: o}
+	case kind == "obj" && len(recs) == 1:
+		if o := one(recs[0]); o != nil {
+			return &VSpec{K: "obj", O: o}
+		}
+	case len(recs) == 1:
+		return one(recs[0])
+	}
+	return nil
+}
+
+// constructible: would the exported constructors accept these components?
+func constructible(kind string, recs []Rec) (ok bool) {
+	defer func() {
+		if recover() != nil {
+			ok = false
+		}
+	}()
+	sp := specFromRecs(kind, recs)
+	if sp == nil {
+		return false
+	}
+	_, err := build(sp)
+	return err == nil
+}
